@@ -75,6 +75,10 @@ func (p *gcpPicker) Pick(info balancer.PickInfo) (balancer.PickResult, error) {
 				return balancer.PickResult{}, fmt.Errorf(
 					"failed to retrieve affinity key from request message: %v", err)
 			}
+			if len(a) == 0 {
+				return balancer.PickResult{}, fmt.Errorf(
+					"failed to retrieve affinity key from request message: no value at %q", locator)
+			}
 			boundKey = a[0]
 		}
 	}
